@@ -144,6 +144,65 @@ BLOCK_TARGETS = [
 ]
 
 
+# closures lifted out of async fns: `.map(|h| <expr>)` following an anchor; <expr> becomes the body of a fn taking h
+CLOSURE_TARGETS = [
+    dict(
+        name="hostname_fragment", file="crates/erbium-core/src/http.rs",
+        header=r"async\s+fn\s+serve_leases\s*<[^{]*\{",
+        anchor=r"\.and_then\(\|o\|\s*o\.get_hostname\(\)\)\s*\.map\(\|h\|\s*",
+        signature="pub fn lifted_hostname_fragment(h: String) -> String",
+    ),
+]
+
+
+def _balanced_until_close(text, i):
+    """text[i:] up to the parenthesis that closes the one opened just before i (strings skipped)"""
+    depth = 1
+    j = i
+    while j < len(text):
+        c = text[j]
+        if c == '"':
+            j += 1
+            while j < len(text) and text[j] != '"':
+                j += 2 if text[j] == "\\" else 1
+        elif c in "([{":
+            depth += 1
+        elif c in ")]}":
+            depth -= 1
+            if depth == 0:
+                return text[i:j]
+        j += 1
+    return None
+
+
+def generate_closures(status, notes):
+    for t in CLOSURE_TARGETS:
+        out = os.path.join(GEN_DIR, t["name"] + ".rs")
+        expr, line = None, None
+        try:
+            src = open(os.path.join(REPO, t["file"])).read()
+            body, line = find_fn_body(src, t["header"])
+            if body is not None:
+                ms = list(re.finditer(t["anchor"], body))
+                if len(ms) == 1:
+                    expr = _balanced_until_close(body, ms[0].end())
+                    if expr is not None and ".await" in expr:
+                        expr = None
+        except Exception:  # noqa
+            expr = None
+        if expr is None:
+            status[t["name"]] = f"closure after /{t['anchor']}/ not found exactly once in {t['file']}"
+            with open(out, "w") as f:
+                f.write("// extraction failed\n#[allow(unused_variables)]\n%s {\n    panic!(\"lifting failed: closure not found in source\")\n}\n" % t["signature"])
+            continue
+        with open(out, "w") as f:
+            f.write("// GENERATED on every run by /verif/lib/lift.py: body of the closure after /%s/ in %s (fn at line %d), verbatim\n" % (t["anchor"], t["file"], line))
+            f.write("#[allow(unused_variables, unused_mut, clippy::all)]\n")
+            f.write(t["signature"] + " {\n    " + expr.strip().rstrip(",") + "\n}\n")
+        status[t["name"]] = None
+        notes.append(f"lifted the closure body after /{t['anchor']}/ of {t['file']} fn at line {line}")
+
+
 def generate_blocks(status, notes):
     for t in BLOCK_TARGETS:
         out = os.path.join(GEN_DIR, t["name"] + ".rs")
@@ -208,6 +267,7 @@ def generate():
     status, notes = {}, []
     generate_exprs(status, notes)
     generate_blocks(status, notes)
+    generate_closures(status, notes)
     for t in TARGETS:
         out = os.path.join(GEN_DIR, t["name"] + ".rs")
         try:
